@@ -1,7 +1,7 @@
 (* Main.v — single entry point of the extracted model: one request tree in, one
    response tree out.  The OCaml driver only parses and prints trees. *)
 From Coq Require Import String List.
-From Prov Require Import Str Sexp Tables Nsm Scope Values Record World Jtree Json JsonSpec Provn ProvnSpec XmlSpec IO Dot Xml XmlLabel XmlRec Rdf Rdfq Interp.
+From Prov Require Import Str Sexp Tables Nsm Scope Values Record World Jtree Json JsonSpec Provn ProvnSpec XmlSpec IO Dot Xml XmlLabel XmlRec XmlRead Rdf Rdfq RdfVal Interp.
 Import ListNotations.
 Open Scope string_scope.
 
@@ -84,6 +84,23 @@ Definition run (req : sexp) : sexp :=
           end
       | _, _ => A "bad-request"
       end
+  | L [A "xmlreadrecord"; L ft; L pmap; t] =>
+      let px_pm (x : sexp) : option (string * option string) :=
+        match x with
+        | L [A ns; A "none"] => Some (ns, None)
+        | L [A ns; L [A "some"; A p]] => Some (ns, Some p)
+        | _ => None
+        end in
+      match px_list px_fentry ft, px_list px_pm pmap, px_xnode 64 t with
+      | Some tab, Some pm, Some tree =>
+          let prefix_of (ns : string) := match lookup ns pm with Some p => p | None => None end in
+          match xml_read_record None tab prefix_of (bundle_init None) tree with
+          | (b, OK _) => L [A "ok"; L (map sx_rec (brecs b))]
+          | (b, Raise e) => L [A "raise"; A (exc_name e)]
+          | (b, OutOfDomain) => A "out-of-domain"
+          end
+      | _, _, _ => A "bad-request"
+      end
   | L [A "rdfpred"; A k; A attr] => L [A (enc_pred k attr); A (dec_pred k (enc_pred k attr))]
   | L (A "rdfq" :: rels) =>
       match px_list px_rrec rels with
@@ -91,6 +108,22 @@ Definition run (req : sexp) : sexp :=
           let g := enc_all 0 rs [] in
           L [L (map (fun t => L [sx_node (ts t); A (tp t); sx_obj (tobj t)]) g); L (map sx_rrec (dec g))]
       | None => A "bad-request"
+      end
+  | L [A "rdfattr"; L nss; a; v] =>
+      let px_decl (x : sexp) : option (string * string) :=
+        match x with L [A p; A u] => Some (p, u) | _ => None end in
+      match px_list px_decl nss, px_qn a, px_valarg v with
+      | Some decls, Some aq, Some va =>
+          match declare_all nsm_init decls, valarg_value va with
+          | Some m, Some vv =>
+              match rdf_encode vv with
+              | Some t => L [A (enc_elem_pred aq); sx_rterm t;
+                             sx_attr_back (rdf_attr_back (mkCtx None []) m (enc_elem_pred aq) t)]
+              | None => A "ood"
+              end
+          | _, _ => A "bad-value"
+          end
+      | _, _, _ => A "bad-request"
       end
   | L [A "dotquote"; A s] => L [A (dot_quote s); A (html_escape s)]
   | L [A "destpath"; A name] =>
